@@ -153,13 +153,29 @@ pub fn run_case(ctx: &mut Ctx, case: &Value) {
     // --- real: three encodes on one issuer object, Debug rendering before/after
     let enc = keys::enc_key(0, 0);
     let dec = keys::dec_key(0, 0);
+    // one case in six signs with another algorithm of the family (whatever follows the header algorithm must
+    // follow it for every kind of node)
+    let sign_alg = match crate::report::hash_of(&case["tree"]) % 12 { 0 => Algorithm::HS384, 1 => Algorithm::HS512, _ => Algorithm::HS256 };
+    // a valid list in which only the first `late` paths are marked before two extra early encode() calls
+    let late: usize = if kind == "valid" && paths.len() >= 2 && crate::report::hash_of(&json!(paths)) % 3 == 0 { 1 + (crate::report::hash_of(&json!(paths)) / 3) as usize % (paths.len() - 1) } else { 0 };
+    if late > 0 { ctx.report.bump("late-marking"); }
     let t0 = std::time::SystemTime::now().duration_since(std::time::UNIX_EPOCH).unwrap().as_secs() as i64;
     let out = real::guard(|| {
         let mut issuer = Issuer::new(claims.clone())?;
-        for p in &paths { issuer.disclosable(p); }
+        let mut early: Vec<Result<String, (String, String)>> = Vec::new();
+        if late > 0 {
+            for p in &paths[..late] { issuer.disclosable(p); }
+            let mut h = Header::new(sign_alg.clone());
+            h.typ = Some("sd-jwt".into());
+            issuer.header(h);
+            for _ in 0..2 { early.push(issuer.encode(&enc).map_err(|e| (real::err_class(&e).to_string(), e.to_string()))); }
+            for p in &paths[late..] { issuer.disclosable(p); }
+        } else {
+            for p in &paths { issuer.disclosable(p); }
+        }
         if let Some(d) = decoy { issuer.decoy(d); }
         if kb { issuer.require_key_binding(sdjwt::Jwk::from_value(jwk.clone())?); }
-        let mut h = Header::new(Algorithm::HS256);
+        let mut h = Header::new(sign_alg.clone());
         h.typ = Some("sd-jwt".into());
         issuer.header(h);
         if let Some(n) = exp_first { issuer.expires_in_seconds(n); }
@@ -172,10 +188,10 @@ pub fn run_case(ctx: &mut Ctx, case: &Value) {
             let after = format!("{:?}", issuer);
             outs.push((r.map_err(|e| (real::err_class(&e).to_string(), e.to_string())), after == before));
         }
-        Ok(outs)
+        Ok((outs, early))
     });
     let t1 = std::time::SystemTime::now().duration_since(std::time::UNIX_EPOCH).unwrap().as_secs() as i64;
-    let outs = match out {
+    let (outs, early) = match out {
         Out::Ok(o) => o,
         Out::Panic(site) => {
             ctx.report.bump("encode:panic");
@@ -276,10 +292,30 @@ pub fn run_case(ctx: &mut Ctx, case: &Value) {
             ctx.report.diff("correspondence", "Issuer::encode", "Issuer::encode:payload-differs-from-model", &c2, json!({"real": payload0, "model": mp}));
         }
     }
+    // the early outputs (fewer markings) are valid SD-JWTs for the same claims too
+    for e in &early {
+        match e {
+            Ok(t) => {
+                let v = Validation::default().without_expiry().with_algorithm(sign_alg.clone());
+                match real::holder_verify(t, &dec, &v) {
+                    Out::Ok((_, c, ps)) => {
+                        let mut expected = claims.clone();
+                        let p = real::peek_jwt(&split_token(t).0).map(|x| x.1).unwrap_or(Value::Null);
+                        for k in ["cnf", "exp"] { if let Some(v) = p.get(k) { if claims.get(k).is_none() || k == "exp" { expected[k] = v.clone(); } } }
+                        if c != expected || ps.len() != late {
+                            ctx.report.diff("property", "Holder::verify", "Holder::verify:early-output-claims", &c2, json!({"real": c, "expected": expected, "paths": ps.len(), "marked": late}));
+                        }
+                    }
+                    other => ctx.report.diff("property", "Holder::verify", &format!("Holder::verify:early-output:{}", out_sig(&other)), &c2, json!({})),
+                }
+            }
+            Err(e) => ctx.report.diff("property", "Issuer::encode", &format!("Issuer::encode:valid-prefix-of-marking:err:{}", e.0), &c2, json!({"marked": &paths[..late]})),
+        }
+    }
     // --- every output is a fresh valid SD-JWT for the same claims (C01 per output), distinct from the others
     if first_ok && kind == "valid" {
         let toks: Vec<String> = outs.iter().filter_map(|o| o.0.as_ref().ok().cloned()).collect();
-        let validation = if exp_in.is_some() && exp_in.unwrap() > 10 && exp_mid.map_or(true, |m| m > 10) { Validation::default().with_algorithm(Algorithm::HS256) } else { Validation::default().without_expiry().with_algorithm(Algorithm::HS256) };
+        let validation = if exp_in.is_some() && exp_in.unwrap() > 10 && exp_mid.map_or(true, |m| m > 10) { Validation::default().with_algorithm(sign_alg.clone()) } else { Validation::default().without_expiry().with_algorithm(sign_alg.clone()) };
         let mut all_discs: Vec<String> = Vec::new();
         for (round, t) in toks.iter().enumerate() {
             // the expiry request in force for this output
